@@ -416,6 +416,15 @@ def rules(rep, m):
     from . import c04
     c04.withdraw_rule(rep, r6, m, SIG, only={"cmb_condition_wait"})
 
+    # R-C13-7 ------------------------------------------------------------
+    r7 = rep.rule("R-C13-7", "a waiter that leaves the condition with any code other than success - the predefined negative "
+                  "ones or an application-defined one of either sign, from its own timer - is out of the queue when the wait "
+                  "returns: every path of cmb_resourceguard_wait (through which the condition waits) that can be taken with "
+                  "a code other than success removes the caller's entry (shared with R-C08-3); a ghost entry would be "
+                  "'resumed' by a later signal out of an unrelated wait", floor=1)
+    from . import c08
+    c08.guard_leave_rule(rep, r7, m, dequeue_only=True)
+
 
 def compiler_witness(rep, m):
     """Thorough tier: every first-member step used to accept a cast is re-checked by the real compiler as a
